@@ -344,6 +344,9 @@ def make_case(mod, prop, scenario, verif_seed, i, tier):
     every = 4 if scenario not in getattr(mod, "INDEXED_SCENARIOS", ()) else 16    # (index-derived enumerations are thousands of tiny runs)
     if "bystanders" not in case and getattr(mod, "BYSTANDERS", True) and derive(rs, "bystanders?") % every == 0:
         case["bystanders"] = derive(rs, "bystander-seed") % (2**31)
+    # one run in six hands one constructor parameter over as another numeric type of equal value (adapters.retyped)
+    if "retype" not in case and derive(rs, "retype?") % 6 == 0:
+        case["retype"] = derive(rs, "retype-seed") % (2**31)
     # one run in five snapshots and restores its detector at an arbitrary instant (checks that support it call ctx.maybe_fork)
     if "fork" not in case and getattr(mod, "FORKS", False) and derive(rs, "fork?") % 5 == 0:
         d = derive(rs, "fork-at")
